@@ -70,7 +70,7 @@ def _replay_c09(item):
     return bad
 
 
-def _mk_real_ghe(n1, n2, H, soil_k=2.0, pipe="single", months=12, amp=9000.0):
+def _mk_real_ghe(n1, n2, H, soil_k=2.0, pipe="single", months=12, amp=9000.0, h_bore=None):
     import_repo()
     from ghedesigner.borehole import GHEBorehole  # noqa: PLC0415
     from ghedesigner.coordinates import rectangle  # noqa: PLC0415
@@ -97,6 +97,8 @@ def _mk_real_ghe(n1, n2, H, soil_k=2.0, pipe="single", months=12, amp=9000.0):
     sp = SimulationParameters(1, months, 35.0, 5.0, 135.0, 60.0)
     m_flow = 0.3 / 1000.0 * fluid.rho
     gfn = calc_g_func_for_multiple_lengths(5.0, [bore.H], bore.r_b, bore.D, m_flow, bt, eskilson_log_times(), coords, fluid, pp, grout, soil)
+    if h_bore is not None:
+        bore.H = h_bore       # the stored g-function stays the one computed for H; the exchanger is built at another height
     return GHE(0.3 * nb, 5.0, bt, fluid, bore, pp, grout, soil, gfn, sp, profile(amp * nb))
 
 
@@ -164,6 +166,21 @@ def _real_c09(case):
             if not np.max(np.abs(sh - 3.25)) <= 1e-9:
                 bad.append(f"shifting the ground temperature by 3.25 K shifts the results by {sh.min()}..{sh.max()}")
             g.bhe.soil.ugt -= 3.25
+            # the height of the object is changed (the idiom of the searches) and it is simulated again: the result is that of an
+            # object built at the new height with the same stored g-function (t_s, short-time response, R_b* all follow the height)
+            h2 = H * 0.8 if H * 0.8 >= 60.0 else H * 1.25
+            g.bhe.b.H = h2
+            g.simulate(TimestepType.HYBRID)
+            moved = np.array(g.hp_eft)
+            fresh = _mk_real_ghe(n1, n2, H, soil_k, pipe, months, h_bore=h2)
+            fresh.hybrid_load = g.hybrid_load      # same load sequence (peak durations are fixed when an object is constructed)
+            fresh.simulate(TimestepType.HYBRID)
+            e3 = np.max(np.abs(moved - np.array(fresh.hp_eft)) / np.maximum(1.0, np.abs(np.array(fresh.hp_eft))))
+            stats["steps"] += len(moved)
+            if not e3 <= 1e-9:
+                bad.append(f"HYBRID after changing the height from {H} to {h2:.2f} m on the same object deviates from an object built at that height by {e3:.3g} (relative)")
+            g.bhe.b.H = H
+            g.simulate(TimestepType.HYBRID)
             if n1 * n2 <= 12:
                 # the g-function the object holds is replaced while the height stays the same (compute_g_functions: a three-height table):
                 # the next simulation superposes the NEW g-function
